@@ -18,7 +18,39 @@ DISPATCH_NOTE = ('Modelled not verified: werkzeug Request/Response/redirect, Exc
                  'Accept negotiation inside render_error; whether a pattern matches is an input of the dispatch model '
                  '(C05 decides it); what executing a route yields is abstracted to an outcome (Model/Exec supplies it). ')
 
+WORLD_NOTE = ('Modelled not verified: the dependency check inside BoundRoute.__init__ is reduced in the World model to '
+              '"every needed name has a source" (C01 decides it in full on Model/Chain.v); render functions, factories, '
+              'handlers and resource values are identities (numbers); aliasing inside the implementation (shared lists) is '
+              'not expressible in the model and is exactly what the per-operation snapshots/probes of every live '
+              'application and of every Route object look for. ')
+
 CLAIMED = {
+ 'C10': dict(
+   text=('Theorems (Props/C10.v) over Model/World.v (application trees of any depth; bind_entry = Application.add / '
+         'SubApplication.bind_all / BoundRoute.__init__ on routes and on already bound routes): a re-bound route has the '
+         'prefixed pattern, the outer slash mode unless opted out, the outer error handling, merged middlewares and the inner '
+         'resources laid over the outer ones; over three levels the middleware list is the outer list, then a subsequence of '
+         'the embedded application\'s, then a subsequence of the route\'s; at request time the serving application\'s '
+         'resource value wins and every other name keeps the inner value; entries are bound independently, so routes outside '
+         'an embedding are bound exactly as without it. Tie: (1) every bound-route field (pattern, mode, middleware instances, '
+         'resources, resolved renderer incl. render-factory stickiness and rebind_render, handler, bound_apps) of every live '
+         'application after every operation of random histories equals the extracted model; (2) the property\'s own oracle: '
+         'the nested application answers every probe request exactly like an independently flattened declaration.'),
+   note=COMMON_NOTE + WORLD_NOTE,
+   technique='Coq proof (list/assoc-list lemmas over the binding model: merge order, resource precedence, independence of entries) + extracted-model differential check + nested-vs-flat differential oracle',
+   design='6/C10'),
+ 'C11': dict(
+   text=('Theorems (Props/C11.v): the insert loop of add() (index resolved once, insert, index += 1) equals ONE contiguous '
+         'splice for every index (None, in range, out of range, negative) and every number of new routes; a failing '
+         'constructor/add/embed - whichever route of whichever embedded application fails - leaves the whole world unchanged; '
+         'an operation changes at most its target application; embedding A in B never writes A. Tie: random histories of '
+         'construct / add / embed / failing entries with one Route object bound into several applications; after EVERY '
+         'operation every live application (bound-route snapshots and probe responses) and every Route object is compared '
+         'with the model and with the frame/atomicity/splice oracles; non-termination of an operation is reported with the '
+         'history as replay.'),
+   note=COMMON_NOTE + WORLD_NOTE,
+   technique='Coq proof (arithmetic/list proof that the insert loop is a splice; case analysis for atomicity and frame over the world-step function) + extracted-model differential check on operation histories',
+   design='6/C11'),
  'C07': dict(
    text=('Theorems (Props/C07.v): normalize_path AS TRANSLATED from route.py is idempotent, keeps exactly the non-empty '
          'segments in order and its branch form is canonical (so the redirect target never redirects again); url_quote(path, '
